@@ -398,6 +398,7 @@ func RandomWalk(w *World, sc Scenario, seed int64, o RandomOpts) {
 	for len(wk.flight) > 0 {
 		wk.stepRandomPass()
 	}
+	w.Store.FlushGhosts = true
 	w.EnvSyncCache()
 	w.Store.LagCreates = false
 	if o.Settle {
@@ -620,6 +621,14 @@ func moreScenarios() []Scenario {
 			l := int32(1)
 			od.Spec.RevisionHistoryLimit = &l
 			w.EnvCreate(od)
+		}},
+		{Name: "deploy-limit1-ghost", Setup: func(w *World) {
+			// the cache keeps listing removed revisions for the whole run (delete-not-yet-visible window)
+			od := NewObjectDeployment("d1", TemplateVariant(0))
+			l := int32(1)
+			od.Spec.RevisionHistoryLimit = &l
+			w.EnvCreate(od)
+			w.Store.HoldGhosts = true
 		}},
 		{Name: "deploy-limit0", Setup: func(w *World) {
 			od := NewObjectDeployment("d1", TemplateVariant(0))
